@@ -129,8 +129,6 @@ def known_classes(lang, cfg, datas):
             du = [f["id"]["r"] for f in all_fields(d) if f["has_default"] and f["ty"].get("Sp") != "Option"]
             if du:
                 add("scala-default-underscore", du)
-            if "." not in cfg.get("package", ""):
-                add("scala-package-without-dot", [cfg.get("package", "")])
         if lang == "swift":
             kw = [k for e in d["enums"] if e["kind"] == "alg" for k in (e["tag"], e["content"]) if k in syn.SWIFT_RESERVED]
             lab = [f["id"]["r"] for f in all_fields(d) if f["id"]["r"].replace("-", "_") in ("var", "let", "inout")]
@@ -188,8 +186,6 @@ def explains(kid, detail, lang, rej, text):
         return near == "<" and line.startswith("export enum ")
     if kid == "scala-default-underscore":
         return "not a default-value expression" in rej.what and near == "_"
-    if kid == "scala-package-without-dot":
-        return True
     if kid == "swift-keyword-not-escaped":
         return "keyword" in rej.what and near in [x.replace("-", "_") for x in detail]
     if kid == "swift-case-name-not-identifier":
@@ -209,21 +205,29 @@ WITNESSES = [
     ("python-tag-key-keyword", "python", {}, "#[typeshare]\n#[serde(tag = \"class\", content = \"content\")]\npub enum E { A(u8) }\n"),
     ("typescript-generic-unit-enum", "typescript", {}, "#[typeshare]\npub enum E<T> { A, #[serde(skip)] P(std::marker::PhantomData<T>) }\n"),
     ("scala-default-underscore", "scala", {"package": "com.example"}, "#[typeshare]\npub struct S { #[serde(default)] pub a: u8 }\n"),
-    ("scala-package-without-dot", "scala", {"package": "pkg"}, "#[typeshare]\npub struct S { pub a: u8 }\n"),
     ("swift-keyword-not-escaped", "swift", {}, "#[typeshare]\n#[serde(tag = \"case\", content = \"content\")]\npub enum E { A(u8) }\n"),
     ("swift-keyword-not-escaped", "swift", {}, "#[typeshare]\npub struct S { pub var: u8 }\n"),
     ("swift-case-name-not-identifier", "swift", {}, "#[typeshare]\npub enum E { _1, B }\n"),
     ("python-tag-member-not-identifier", "python", {}, "#[typeshare]\n#[serde(tag = \"t\", content = \"c\")]\npub enum E { _1(u8), B }\n"),
     ("kotlin-import-empty-package", "kotlin", {"package": ""}, None),
 ]
-# witnesses of repaired findings (python-generic-alias: 614135b, python-docstring-escape: 37d8a26): the oracle must accept
-# the implementation's output now
+# witnesses of repaired findings (python-generic-alias: 614135b, python-docstring-escape: 37d8a26,
+# scala-package-without-dot: fb91590): the oracle must accept the implementation's output now
 REPAIRED = [
+    ("scala-package-without-dot", "scala", {"package": "pkg"}, "#[typeshare]\npub struct S { pub a: u8 }\n"),
+    ("scala-package-without-dot", "scala", {"package": "pkg"}, "#[typeshare]\npub struct S;\n"),
+    ("scala-package-without-dot", "scala", {"package": "pkg"},
+     "#[typeshare]\npub type A = Vec<u8>;\n#[typeshare]\npub struct S { pub a: A }\n#[typeshare]\npub enum E { P, Q }\n"),
     ("python-generic-alias", "python", {}, "#[typeshare]\npub type G<T> = Vec<T>;\n"),
     ("python-generic-alias", "python", {}, "#[typeshare]\n/// doc\npub type M<K, V> = HashMap<String, Option<Vec<V>>>;\n#[typeshare]\npub struct S<K> { pub a: K }\n"),
     ("python-docstring-escape", "python", {}, "#[typeshare]\n/// see C:\\Users\\x\npub struct S { pub a: u8 }\n"),
     ("python-docstring-escape", "python", {}, "#[typeshare]\n/// \\N \\x4 \\u12 \\\"\"\" \\\npub struct S {\n    /// trailing \\\n    pub a: u8 }\n"),
 ]
+# the witness of TsV.C10.C10_not_full (theorem renamed_name_printed_raw): the item rename is copied into the declaration
+# unchecked (the mechanism of dashed-type-name), so a dash *and a bracket* leave the file lexically unclosed
+NOT_FULL = ("scala", {"package": "com.example", "version_header": False},
+            "#[typeshare]\n#[serde(rename = \"New-Name{\")]\npub struct Foo;\n",
+            "package com\n\npackage example {\n\nclass New-Name{ extends Serializable\n\n}\n")
 KOTLIN_IMPORT_FILES = [
     {"src": "#[typeshare]\npub struct A { pub a: u8 }\n", "crate": "alpha", "file_name": "alpha.out", "path": "alpha/src/lib.rs"},
     {"src": "use alpha::A;\n#[typeshare]\npub struct B { pub a: A }\n", "crate": "beta", "file_name": "beta.out", "path": "beta/src/lib.rs"},
@@ -529,6 +533,7 @@ def run(check):
                               "output": list(ra["ok"].values())[0][:600]})
     replay_witnesses(check)
     replay_repaired(check)
+    replay_not_full(check)
     check.assumptions += [
         "partial strength: the Lean theorems prove lexical well-formedness (comments, string literals and brackets closed: `wellBracketed`), the "
         "keyword-escaping promises of Swift and Python and the leading-digit rule on the model; conformance to the declaration grammar is CHECKED "
@@ -537,6 +542,32 @@ def run(check):
         "(duplicate member names, undefined or shadowed names, Go's unused import are outside)",
         "doc comments containing a line break, `*/` (TypeScript) or `\"\"\"` (Python) are C15's known classes and excluded by hypothesis here",
     ]
+
+
+def replay_not_full(check):
+    """the kernel-checked witness of C10_not_full on the real generator: the same bytes as in the theorem, rejected by the
+    Lean specification lexOk and by the oracle, inside the open class dashed-type-name"""
+    lang, cfg, src, want = NOT_FULL
+    req = {"op": "generate", "lang": lang, "config": cfg, "files": [{"src": src, "crate": "", "file_name": "o", "path": "w.rs"}]}
+    a = runner([req])[0]
+    d = runner([dict(req, reconciled=True)])[0]
+    check.saw(("not-full-witness", lang, src), nontrivial=True)
+    case = {"lang": lang, "config": cfg, "source": src}
+    text = list(a["ok"].values())[0] if "ok" in a else None
+    if text != want:
+        check.violation("the witness of TsV.C10.C10_not_full is generated differently from the theorem's text", case=case, impl=a,
+                        model=want, failing_input=False, broken="correspondence L2 scala generate_types (theorem TsV.C10.renamed_name_printed_raw)")
+        return
+    lex = model([[S("lexok"), S(lang), text]], with_unicode=False)[0].get("ok")
+    rej, _ = syn.check(lang, text)
+    classes = known_classes(lang, cfg, list(d["ok"].values())) if "ok" in d else {}
+    if lex is not False or rej is None or "dashed-type-name" not in classes:
+        check.violation("the witness of TsV.C10.C10_not_full is not rejected any more (lexOk=%s, oracle=%s, classes=%s)"
+                        % (lex, rej.describe() if rej else "accept", sorted(classes)), case=case, impl={"text": text},
+                        failing_input=False, broken="theorem TsV.C10.C10_not_full is about the model only")
+    elif not check.known("dashed-type-name", {"lang": lang, "config": cfg, "source": src, "output": text, "rejection": rej.describe()}):
+        check.violation("%s output is not lexically closed: %s (witness of C10_not_full; class dashed-type-name is not an open known finding)"
+                        % (lang, rej.describe()), case=case, impl={"text": text}, failing_input=True)
 
 
 def replay_repaired(check):
@@ -551,8 +582,10 @@ def replay_repaired(check):
             continue
         for text in a["ok"].values():
             rej, _ = syn.check(lang, text)
-            if rej is not None:
-                check.violation("%s output is not well-formed: %s (witness of the repaired finding %s)" % (lang, rej.describe(), kid),
+            lex = model([[S("lexok"), S(lang), text]], with_unicode=False)[0].get("ok")
+            if rej is not None or lex is False:
+                check.violation("%s output is not well-formed: %s (witness of the repaired finding %s: the defect has returned)"
+                                % (lang, rej.describe() if rej is not None else "the Lean specification lexOk rejects it", kid),
                                 case={"lang": lang, "config": cfg, "source": src}, impl={"text": text}, failing_input=True)
             elif lang == "python":
                 imp = python_import(text)
